@@ -29,6 +29,50 @@
 #include "scon.hh"
 #include "op.hh"
 
+#ifdef DWGREP_VERIF
+# include <cstdio>
+# include <cstdlib>
+# include <stdexcept>
+
+namespace dwgrep_verif
+{
+  void
+  scon_fail (char const *what, size_t off, size_t size, char const *type)
+  {
+    std::fprintf (stderr, "DWGREP_VERIF scon: %s (offset %zu, size %zu, "
+		  "type %s)\n", what, off, size, type);
+    std::fflush (stderr);
+    std::abort ();
+  }
+
+  namespace
+  {
+    thread_local unsigned long step_count = 0;
+    thread_local unsigned long step_limit = 0;
+  }
+
+  void
+  step ()
+  {
+    if (++step_count > step_limit && step_limit != 0)
+      throw std::runtime_error ("DWGREP_VERIF step limit");
+  }
+
+  void
+  set_step_limit (unsigned long limit)
+  {
+    step_count = 0;
+    step_limit = limit;
+  }
+
+  unsigned long
+  get_step_count ()
+  {
+    return step_count;
+  }
+}
+#endif
+
 scon::scon (layout const &l)
   // 85 is 0b1010101, a pattern that's very unlikely to be valid data. If
   // op::state_con is not called, this is likely to cause a loud & early
